@@ -27,6 +27,7 @@ EXPLANATION = (
     "every shared column to the same source (debug_output is single-point only). R-C05-6: the running strain maximum is "
     "updated only on the load-increase branch, the minimum on the other, both against the current point's strain.")
 EXPLANATION += (' R-C05-7: visited strains are one list split at a counter; every append is followed by `if run_index == 1: counter += 1`, the counter changes nowhere else, the accessors return [:counter] and [counter:]. R-C05-8: a decision taken on the first assessment point and applied to all points compares loads or sample positions only (proportional histories order loads alike at every point); any first-point comparison of stresses or strains is a violation - they are nonlinear in the load factor, and with a binned law even the two ends of one branch can tie at one point and differ at another. R-C05-9: chunk-relative positions (global position minus head index before the chunk); the repair of a turning point lying in the carried tail is guarded by a complete sign test (< 0), and the stored sample is the last load step of the chunk.')
+EXPLANATION += (' R-C05-10: the HCM case decisions compare loads and load ranges exactly up to a fixed absolute round-off guard (a literal <= 1e-9); relative tolerances (np.isclose, rounding) in a decision are violations.')
 ASSUMPTIONS = ["pd.concat([a, b]) appends b after a"]
 
 LISTS = ["_loads_min", "_loads_max", "_S_min", "_S_max", "_epsilon_min", "_epsilon_max", "_epsilon_min_LF",
@@ -34,7 +35,7 @@ LISTS = ["_loads_min", "_loads_max", "_S_min", "_S_max", "_epsilon_min", "_epsil
 
 
 def run(ctx):
-    for r in (_r1, _r2, _r3, _r4, _r5, _r6, _r7, _r8, _r9):
+    for r in (_r1, _r2, _r3, _r4, _r5, _r6, _r7, _r8, _r9, _r10):
         ctx.attempt(r)
 
 
@@ -552,6 +553,44 @@ def _r9(ctx):
         ctx.violated(f, ls[0] if ls else f.node, "the sample kept for the next chunk is not the last load step of this chunk", text="last sample")
 
 
+def _r10(ctx):
+    """The HCM case decisions compare loads and load ranges exactly, up to a fixed absolute round-off guard (a literal of at
+    most 1e-9 added or subtracted).  A relative tolerance (np.isclose / allclose, rounding) treats ranges that differ in the
+    fifth significant digit as equal and so closes hystereses the guideline procedure leaves open (or vice versa)."""
+    prog = ctx.prog
+    ctx.rule("R-C05-10", floor=3, what="HCM decisions compare loads exactly up to a fixed absolute round-off guard; no relative tolerances")
+    ci = prog.cls(D[:-1])
+    n = 0
+    for name, fs in ci.methods.items():
+        f = fs[-1]
+        for c in calls_in(f.node):
+            fn = call_name(c) or ""
+            if fn in ("np.isclose", "np.allclose", "math.isclose", "np.round", "round", "np.around", "np.rint"):
+                st = c
+                while not isinstance(st, ast.stmt):
+                    st = st._parent
+                in_test = any(x is c for t_ in ([st.test] if isinstance(st, (ast.If, ast.While)) else [st])
+                              for x in ast.walk(t_))
+                if in_test:
+                    ctx.violated(f, st, "%s: %s decides an HCM case with a relative tolerance / rounding: load ranges that differ "
+                                 "by less than the tolerance are treated as equal, so a hysteresis is closed (or a Memory case "
+                                 "taken) where the guideline procedure does not" % (f.name, norm_text(c)), text=norm_text(c))
+        for t in [x for x in ast.walk(f.node) if isinstance(x, (ast.If, ast.While))]:
+            for cmp_ in [x for x in ast.walk(t.test) if isinstance(x, ast.Compare) and len(x.ops) == 1]:
+                for side in (cmp_.left, cmp_.comparators[0]):
+                    if isinstance(side, ast.BinOp) and isinstance(side.op, (ast.Add, ast.Sub)):
+                        eps = const_value(side.right)
+                        if isinstance(eps, float) and eps != 0:
+                            n += 1
+                            if abs(eps) <= 1e-9:
+                                ctx.holds(f, t, "%s: %s uses the absolute round-off guard %g" % (f.name, norm_text(cmp_), eps))
+                            else:
+                                ctx.violated(f, t, "%s: %s uses a tolerance of %g, which is not a round-off guard" %
+                                             (f.name, norm_text(cmp_), eps), text=norm_text(cmp_))
+    if n == 0:
+        raise AnalysisError("no guarded load comparison found in the HCM case analysis")
+
+
 def _elem0(e):
     """X for X.values[0] / X.iloc[0] / X[0]; None otherwise"""
     if isinstance(e, ast.Subscript) and const_value(e.slice) == 0 and not isinstance(const_value(e.slice), bool):
@@ -668,6 +707,17 @@ C = "FKMNonlinearDetector."
 
 def variants():
     out = []
+
+    def isclose_extent(tree):
+        f = find_func(tree, C + "_hcm_process_sample")
+        for n in ast.walk(f):
+            if isinstance(n, ast.If) and isinstance(n.test, ast.Compare) and isinstance(n.test.comparators[0], ast.BinOp) and \
+                    isinstance(n.test.ops[0], ast.Lt) and "extent" in ast.unparse(n.test):
+                a, b = ast.unparse(n.test.left), ast.unparse(n.test.comparators[0].left)
+                n.test = parse_expr("%s < %s and not np.isclose(%s, %s)" % (a, b, a, b))
+                return True
+        return False
+    out.append(witness("c)i / c)ii decision with np.isclose", FN, isclose_extent, "R-C05-10"))
 
     def tail_guard_eq(tree):
         f = find_func(tree, C + "process")
